@@ -568,9 +568,14 @@ def check_payload_id(ctx):
     fi = ctx.func(CLS + '._get_payload_id')
     P = ctx.sval(fi)
     p = fi.call_params()[0]
+    def on(v):
+        return lambda t: v if (t[0] == 'caught' and 'ValueError' in tq.text(t)) else None
     rets = [(pc, strip_ids(t)) for pc, t, _ in P.returns]
-    ip = [(pc, t) for pc, t in rets if not any(a[0][0] == 'caught' for a in pc)]
-    txt = [(pc, t) for pc, t in rets if any(a[0][0] == 'caught' and 'ValueError' in tq.text(a[0]) for a in pc)]
+    # the two outcomes of ip_address(<text>): accepted (nothing caught) and refused (ValueError caught) - whether the code returns from
+    # inside the handler or records the refusal in a local and tests that afterwards
+    txt = [(pc, strip_ids(tq.restrict(t, on(True)))) for pc, t in rets if common.miss_path(pc, 'ValueError')]
+    ip = [(pc, strip_ids(tq.restrict(t, on(False)))) for pc, t in rets if not common.miss_path(pc, 'ValueError')
+          and not any(a[0][0] == 'caught' and a[1] for a in pc)]
     addr = strip_ids(P.expr('ip_address(%s)' % p))
     ok = len(ip) == 1 and tq.is_call(ip[0][1], 'new message.PayloadID') and tq.args(ip[0][1]).get('id_data') == ('attr', addr, 'packed')
     if ok:
